@@ -112,6 +112,7 @@ def check(ctx):
     check_seeds(ctx)
     check_merge_order(ctx)
     check_worker_count(ctx)
+    check_worker_count_special_cases(ctx)
     # settings this property depends on are handed down every call
     # chain, never left to a callee's default (sa/rules/forwarding.py)
     from ..rules.forwarding import check_forwarding
@@ -622,3 +623,91 @@ def _flows_only_to_chunk_size(rd, cfg, var, node, depth=0):
                 continue
             return False
     return True
+
+
+# tests of the worker count against a constant that were read and
+# confirmed: both arms perform the same step, serially or in processes
+SERIAL_OR_PARALLEL = {
+    'diff_exp.precompute_from_anndata:'
+    '_precompute_summary_stats_from_h5ad_and_lookup':
+        'n_processors <= 1 runs _process_chunk_spec in-process with the '
+        'very arguments the Process branch hands to it',
+    'diff_exp.markers:add_sparse_by_gene_markers_to_file':
+        'n_processors == 1 uses the serial on-disk transposition, '
+        'otherwise the parallel one, on the same datasets (their '
+        'equivalence is C13\'s subject)',
+}
+
+
+def check_worker_count_special_cases(ctx):
+    """results may not depend on the number of workers.  The worker count
+    legitimately bounds chunk sizes and pool occupancy; a *test* of it
+    against a constant (`n_processors == 1`) singles out one worker count
+    for another code path, and is acceptable only where both paths do the
+    same step serially or in processes.  The two such tests on the tree
+    were read and are listed; each must have both arms calling the same
+    routine (or its declared parallel sibling).  Any other test of a
+    worker-count parameter against a constant is reported."""
+    db = ctx.db
+    rule = 'R-PROV/worker-count-special-case'
+    n = 0
+    for fi in db.iter_functions():
+        if fi.module.short.startswith(('gpu_utils', 'corr.')):
+            continue
+        if 'n_processors' not in fi.params:
+            continue
+        for node in ast.walk(fi.node):
+            if not isinstance(node, (ast.If, ast.IfExp, ast.While)):
+                continue
+            hit = None
+            for c in ast.walk(node.test):
+                if isinstance(c, ast.Compare) and len(c.ops) == 1:
+                    sides = [c.left, c.comparators[0]]
+                    if any(isinstance(x, ast.Name)
+                           and x.id == 'n_processors' for x in sides) \
+                            and any(isinstance(x, ast.Constant)
+                                    and isinstance(x.value, int)
+                                    for x in sides):
+                        hit = c
+            if hit is None:
+                continue
+            n += 1
+            known = SERIAL_OR_PARALLEL.get(fi.qual)
+            ok = False
+            why = ('the worker count is compared with a constant to choose '
+                   'another code path')
+            core_test = node.test
+            while isinstance(core_test, ast.UnaryOp) and isinstance(
+                    core_test.op, ast.Not):
+                core_test = core_test.operand
+            if known is not None and isinstance(node, ast.If) \
+                    and isinstance(core_test, ast.Compare):
+                # both arms call the same routine / its parallel sibling
+                def callees(stmts):
+                    out = set()
+                    for st in stmts:
+                        for x in ast.walk(st):
+                            if isinstance(x, ast.Call):
+                                t = resolve_callee(db, fi, x)
+                                if isinstance(t, FunctionInfo):
+                                    out.add(t.name)
+                            if isinstance(x, ast.keyword) \
+                                    and x.arg == 'target' and isinstance(
+                                        x.value, ast.Name):
+                                out.add(x.value.id)
+                    return out
+                a, b = callees(node.body), callees(node.orelse)
+                stem = {x.rstrip('_v2').lstrip('_') for x in a} & {
+                    x.rstrip('_v2').lstrip('_') for x in b}
+                ok = bool(stem)
+                why = ('the two arms no longer call the same routine '
+                       f'({sorted(a)} / {sorted(b)})')
+            ctx.touch(fi)
+            ctx.ob(rule, f'{fi.qual}:{unparse(hit)}', fi.loc(node), ok,
+                   'serial / parallel variants of one step' if ok else
+                   f'`{unparse(node.test)[:60]}` in {fi.name}: {why}; a '
+                   'run with that many workers takes a path no other run '
+                   'takes, and its results can differ')
+    if n < 2:
+        raise AnalysisError('the confirmed serial-or-parallel tests of the '
+                            'worker count were not found')
